@@ -33,7 +33,12 @@ type gsState struct {
 	next  uint64
 	nonce uint64
 	ans   map[uint64]string // id -> record (absent when there is no port)
+	raw   map[uint64]string // id -> hex of the raw QueryProp answer, for answers of at most gsRawMax bytes
 }
+
+// raw QueryProp answers up to this size are written into the trace (`r<id>=<hex>`): the driver encodes the record with the
+// Lean model of the contract ABI and compares byte for byte, and decodes the raw bytes and compares with the record
+const gsRawMax = 1536
 
 type gsSuite struct {
 	w     *World
@@ -72,7 +77,7 @@ func (s *gsSuite) freshTok(pre gsState) string {
 
 func (s *gsSuite) read() gsState {
 	w := s.w
-	st := gsState{port: "-", ans: map[uint64]string{}}
+	st := gsState{port: "-", ans: map[uint64]string{}, raw: map[uint64]string{}}
 	next, err := w.App.GovKeeper.ProposalID.Peek(w.Ctx)
 	if err != nil {
 		panic(err)
@@ -94,6 +99,9 @@ func (s *gsSuite) read() gsState {
 				continue
 			}
 			st.ans[id] = gsRecord(p)
+			if len(p.Raw) <= gsRawMax {
+				st.raw[id] = hex.EncodeToString(p.Raw)
+			}
 		}
 	}
 	return st
@@ -139,6 +147,9 @@ func (s *gsSuite) delta(pre, post gsState) string {
 		}
 		if b, okb := pre.ans[id]; !okb || a != b {
 			out = append(out, fmt.Sprintf("q%d=%s", id, a))
+			if rw, okr := post.raw[id]; okr {
+				out = append(out, fmt.Sprintf("r%d=%s", id, rw))
+			}
 		}
 	}
 	return strings.Join(out, " ")
